@@ -30,7 +30,7 @@ ASSUMPTIONS = [
     "characters (ordinary calls: < 1 ms), or killed by the 20 s CPU supervisor / 2 GiB address-space limit",
     "the recursion counter may legitimately reach recursion_limit + 1 (it is compared with > before the increment)",
 ]
-REQUIRED = {"brace_sequences": 50000, "expr_calls": 3000, "sweep_calls": 2000, "program_expansions": 500, "functions_reached": 100, "recursion_watermarks": 100,
+REQUIRED = {"deep_nesting_cases": 40, "brace_sequences": 50000, "expr_calls": 3000, "sweep_calls": 2000, "program_expansions": 500, "functions_reached": 100, "recursion_watermarks": 100,
             "cyclic_universes": 20}
 LEVEL_TEXT = ("Exploration with a bounded-exhaustive part: the function sweep enumerates every registered name x "
               "argument count 0..3 x shape pairs on the real Expander; a boundary monitor, a proportionality monitor "
@@ -86,6 +86,7 @@ def plan(tier, seed):
               for i in range(n)]
     shards += [{"kind": "braces", "shard": i, "n": 16, "seed": seed, "depth": 5 if tier == "quick" else 6,
                 "random": 2000 if tier == "quick" else 100000} for i in range(16)]
+    shards += [{"kind": "deep", "shard": 0, "seed": seed}]
     shards += [{"kind": "expr", "shard": i, "n": 4, "seed": seed, "random": 300 if tier == "quick" else 20000} for i in range(4)]
     shards += [{"kind": "programs", "shard": i, "count": 500 if tier == "quick" else 40000, "seed": seed}
                for i in range(n)]
@@ -263,6 +264,20 @@ def run_shard(desc, R):
         R.count("functions_reached", len(reached_before))
         for f in reached_before:
             R.seen("functions", f)
+        return
+    if desc["kind"] == "deep":
+        # braces nested deeper than any recursion limit, in the page and in a template page
+        makers = {"if": lambda n: "{{#if:1|" * n + "x" + "}}" * n, "param": lambda n: "{{{" * n + "x" + "}}}" * n,
+                  "call": lambda n: "{{a|" * n + "x" + "}}" * n, "default": lambda n: "{{{1|" * n + "x" + "}}}" * n,
+                  "switch": lambda n: "{{#switch:1|1=" * n + "x" + "}}" * n, "open-only": lambda n: "{{" * n + "x"}
+        for nm, mk in sorted(makers.items()):
+            for n in (150, 400, 1100, 3000):
+                body = mk(n)
+                for where, pages, text in (("template", {"deep": body, "a": "A{{{1}}}"}, "p {{deep}} q {{deep|z}}"),
+                                           ("page", {"a": "A{{{1}}}"}, "p " + body + " q")):
+                    judge(R, text, SynthDB(pages, "en"), pages, "en", "program", use_clock=False)
+                    R.count("deep_nesting_cases")
+                    R.case(h64("deep", nm, n, where), True)
         return
     if desc["kind"] == "braces":
         # unbalanced braces: every token sequence up to the depth, as page text and as the body of a called template
